@@ -1,5 +1,5 @@
 From Coq Require Import List NArith Arith.
-From SK Require Import lib.LGraph lib.Mono model.C11_Model proof.C11_Aut proof.C11_WL proof.C11_Dedup proof.C11_Main proof.C11_Comp proof.C11_VF2 proof.C11_Vocab proof.C11_Sig proof.C11_Anchor model.C11_State proof.C11_StateProof model.C11_Partial proof.C11_PartialProof proof.C11_PruneClass proof.C11_WLPart proof.C11_Idem model.C11_Keys.
+From SK Require Import lib.LGraph lib.Mono model.C11_Model proof.C11_Aut proof.C11_WL proof.C11_Dedup proof.C11_Main proof.C11_Comp proof.C11_VF2 proof.C11_Vocab proof.C11_Sig proof.C11_Anchor model.C11_State proof.C11_StateProof model.C11_Partial proof.C11_PartialProof proof.C11_PruneClass proof.C11_WLPart proof.C11_Idem model.C11_Keys model.C11_Attr proof.C11_AttrProof.
 Import ListNotations.
 
 (** Vocabulary (definitions in proof/C11_Aut.v, written out here for the reader):
@@ -329,3 +329,77 @@ Theorem C11_prune_same_results :
     forall r, In r (map (fun x => res (key x)) raw) <-> In r (map (fun x => res (key x)) (prune key rc raw)).
 Proof. exact prune_same_results. Qed.
 Print Assumptions C11_prune_same_results.
+
+(** Attribute dictionaries and key options (round 5; model/C11_Attr.v).  The model receives the attribute dictionaries of
+    the networkx graph ([agraph]: key code -> value code per node / edge) and the key options as the caller gave them;
+    [pick dflt keys d] is the tuple [d.get(k, dflt k) for k in keys] (default 0 for "charge", "*" for any other node
+    key, 1.0 for an edge key), [to_graph nk ek ag] the graph the analysis runs on (tuples numbered by first occurrence).
+    [attr_automorphism nk ek ag s] (proof/C11_AttrProof.v) := s maps nodes to nodes injectively, keeps the tuple of
+    configured node attribute values and maps every pair of nodes to a pair with the same tuple of configured edge
+    attribute values (non-edges to non-edges).  Then: the label-preserving automorphisms of the analysed graph - the
+    maps all theorems above talk about - are exactly these; the estimate never separates nodes exchanged by one; two
+    attribute graphs with the same configured tuples are analysed alike; an absent attribute IS its default value and an
+    attribute outside the configured keys is not looked at. *)
+Theorem C11_configured_labels_only :
+  forall (nk ek : list N) (ag : agraph),
+    node_ids (to_graph nk ek ag) = node_ids ag /\
+    (wf ag -> wf (to_graph nk ek ag)) /\
+    (forall s, is_automorphism n_exact e_order (to_graph nk ek ag) s <->
+       (forall u, In u (node_ids ag) -> In (s u) (node_ids ag)) /\
+       (forall u v, In u (node_ids ag) -> In v (node_ids ag) -> s u = s v -> u = v) /\
+       (forall u, In u (node_ids ag) ->
+          option_map (pick node_default nk) (label ag (s u)) = option_map (pick node_default nk) (label ag u)) /\
+       (forall u v, In u (node_ids ag) -> In v (node_ids ag) ->
+          option_map (pick edge_default ek) (LGraph.adj ag (s u) (s v)) =
+          option_map (pick edge_default ek) (LGraph.adj ag u v))) /\
+    (forall s, is_automorphism n_wl e_order (to_graph nk ek ag) s <-> attr_automorphism nk ek ag s) /\
+    (wf ag -> forall s k u, attr_automorphism nk ek ag s -> In u (node_ids ag) ->
+       col (wl n_exact e_order (to_graph nk ek ag) k) (s u) = col (wl n_exact e_order (to_graph nk ek ag) k) u) /\
+    (forall ag', picked nk ek ag' = picked nk ek ag -> to_graph nk ek ag' = to_graph nk ek ag) /\
+    (forall k u d r l2, gnodes ag = r ++ (u, d) :: l2 -> assoc k d = None ->
+       picked nk ek (LG (r ++ (u, (k, node_default k) :: d) :: l2) (gedges ag)) = picked nk ek ag) /\
+    (forall k v u d r l2, gnodes ag = r ++ (u, d) :: l2 -> ~ In k nk ->
+       picked nk ek (LG (r ++ (u, (k, v) :: d) :: l2) (gedges ag)) = picked nk ek ag).
+Proof. exact configured_labels_only. Qed.
+Print Assumptions C11_configured_labels_only.
+
+(** The option rules themselves: Automorphism takes the defaults for a FALSY key argument (None or empty), AutoEst only
+    for None (an empty list = no label: every tuple is empty). *)
+Theorem C11_key_options :
+  (forall d : list N, exact_keys d None = d) /\ (forall d : list N, exact_keys d (Some []) = d) /\
+  (forall (d : list N) k r, exact_keys d (Some (k :: r)) = k :: r) /\
+  (forall d : list N, wl_keys d None = d) /\ (forall (d l : list N), wl_keys d (Some l) = l) /\
+  (forall (dflt : N -> N) (d : attrs), pick dflt [] d = []).
+Proof. exact key_options. Qed.
+Print Assumptions C11_key_options.
+
+(** The labels of a RULE symmetry (round 5; graph_automorphisms(graph, ignore_node_attrs), default ("atom_map",)): the
+    model receives the attribute dictionaries of rule.rc.raw; [to_rule_graph skip ag] is the graph whose automorphisms
+    [rule_auts] enumerates for the pruning step ([run_prune_attr], evaluated on every rule application).  Its
+    automorphisms - the sigma of C11_prune_complete_aut / C11_prune_first_of_class - are exactly the node permutations
+    under which every node keeps its attribute dictionary up to the ignored keys ([assoc k d = assoc k d'] for every key
+    k that is not ignored: same keys present, same values) and every pair of nodes keeps its edge attribute dictionary
+    (all keys; non-edges go to non-edges). *)
+Theorem C11_rule_labels :
+  forall (skip : list N) (ag : agraph),
+    node_ids (to_rule_graph skip ag) = node_ids ag /\
+    (wf ag -> wf (to_rule_graph skip ag)) /\
+    (forall s, is_automorphism n_full e_full (to_rule_graph skip ag) s <->
+       (forall u, In u (node_ids ag) -> In (s u) (node_ids ag)) /\
+       (forall u v, In u (node_ids ag) -> In v (node_ids ag) -> s u = s v -> u = v) /\
+       (forall u, In u (node_ids ag) ->
+          match label ag (s u), label ag u with
+          | Some d, Some d' => forall k, ~ In k skip -> assoc k d = assoc k d'
+          | None, None => True
+          | _, _ => False
+          end) /\
+       (forall u v, In u (node_ids ag) -> In v (node_ids ag) ->
+          match LGraph.adj ag (s u) (s v), LGraph.adj ag u v with
+          | Some d, Some d' => forall k, ~ In k [] -> assoc k d = assoc k d'
+          | None, None => True
+          | _, _ => False
+          end)) /\
+    (wf ag -> forall m, In m (rule_auts_attr skip ag) <->
+       exists s, rule_automorphism skip ag s /\ m = aut_pairs (to_rule_graph skip ag) s).
+Proof. exact rule_labels. Qed.
+Print Assumptions C11_rule_labels.
